@@ -1,7 +1,10 @@
 """Engine = interpreter + search summaries + event recording.  Rule engines subclass it."""
 from __future__ import annotations
 
-from .interp import Interp, Raise
+from dataclasses import replace
+
+from .front import norm
+from .interp import Finding, Interp, Raise
 from .lookup import LookupMixin
 
 
@@ -24,6 +27,8 @@ class Engine(LookupMixin, Interp):
         if kind in ('lookup', 'remove', 'insert', 'append', 'setitem', 'warn', 'newchild', 'copy', 'elem-store',
                     'elem-bool', 'serialize', 'extend', 'clear', 'descend', 'print', 'reorder'):
             st.emit(kind, *self._evdata(kind, st, data), site=self.site(node, st) if node is not None else None)
+        if kind in ('remove', 'insert', 'append', 'setitem', 'elem-store', 'extend', 'clear', 'list-append', 'dict-store', 'newchild'):
+            st.effect()
         m = getattr(self, 'on_' + kind.replace('-', '_'), None)
         if m is not None:
             m(st, node, **data)
@@ -38,3 +43,39 @@ class Engine(LookupMixin, Interp):
             else:
                 out.append(f'{k}={v}')
         return out
+
+    # ----------------------------------------------------------- attribution
+    def attrib(self, st: State, node):
+        """(function short name, construct node, file, line): the innermost frame outside utils/xml.py and
+        the call it makes, so that the tree helpers are reported at their call site."""
+        frames = st.frames
+        for i in range(len(frames) - 1, -1, -1):
+            f = frames[i]
+            if f.func is not None and f.func.name != '<entry>' and not f.func.module.name.endswith('utils.xml'):
+                n = node if i == len(frames) - 1 else frames[i + 1].callnode
+                return f.func.short, n, f.func.file, getattr(n, 'lineno', 0)
+        f = frames[-1]
+        return (f.func.short if f.func else '?'), node, (f.func.file if f.func else '?'), getattr(node, 'lineno', 0)
+
+    def find_(self, rule, st, node, construct, detail=''):
+        """Key = rule | method | normalised source construct; the provenance-level description goes to the detail."""
+        func, n, file, line = self.attrib(st, node)
+        text = norm(n) if n is not None else construct
+        fd = Finding(rule, func, text, f'{construct}: {detail}' if construct != text else detail, file, line, self.entry, self.witness(st))
+        self.findings.setdefault(fd.key, fd)
+
+    def st_Raise(self, stmt, st):
+        outs = super().st_Raise(stmt, st)
+        res = []
+        for ctl, s in outs:
+            if isinstance(ctl, tuple) and ctl[0] == 'raise' and not ctl[1].implicit and ctl[1].site and ctl[1].site[1] == stmt.lineno:
+                func, n, file, line = self.attrib(s, stmt)
+                ctl = ('raise', replace(ctl[1], site=(file, line, func, norm(stmt))))
+            res.append((ctl, s))
+        return res
+
+    def exc(self, cls, st, node, msg='', implicit=True):
+        r = super().exc(cls, st, node, msg, implicit)
+        func, n, file, line = self.attrib(st, node)
+        return Raise(replace(r.exc, site=(file, line, func, norm(n) if n is not None else '')))
+
